@@ -829,7 +829,7 @@ func TestPropBucketDelete(t *testing.T) {
 	rec.Assume("predicates restricted to definite semantics: tag = \"non-empty value\" (false for series that lack the tag, as tsm1/predicate.go documents), _measurement = \"m\", AND; no !=, no regex, no empty values, no measurement names containing '='")
 	rec.Assume("each shard is kept at <= 8 TSM files per key (unrelated finding keycursor-cyclic-block-order) and no delete runs inside a held snapshot window (finding delete-during-snapshot-window, C03)")
 	rec.Assume("delete ranges satisfy models.MinNanoTime <= min <= max <= models.MaxNanoTime (the HTTP handler validates the two ends; min > max is not issued)")
-	rec.CheckSteps(t, 120, 1500, 14, func(t *rapid.T) {
+	rec.CheckSteps(t, 100, 1500, 14, func(t *rapid.T) {
 		hours := rapid.IntRange(2, 4).Draw(t, "hours")
 		// active series: 4..8 of the domain; the '!' series takes part in about a quarter of the cases
 		nser := rapid.IntRange(4, 8).Draw(t, "nser")
